@@ -94,16 +94,18 @@ extern "C" void vh_c20_sections() {
     // search from a single section: breadth-first, the start itself not included
     uint32_t nstart = (uint32_t)nodes.size() < VH_STARTS ? (uint32_t)nodes.size() : VH_STARTS;
     int start = (int)nixsym_choice("start", nstart);
+    // one filter object serves every search of this run (a filter is a predicate: using it must not change what it accepts)
+    util::Filter<Section>::type flt = make_filter<Section>(p);
     {
         std::vector<int> want; for (int i : bfs(nodes, start, maxd, false)) if (accepts(p, nodes[i])) want.push_back(i);
-        std::vector<Section> got = unlimited ? ents[start].findSections(make_filter<Section>(p)) : ents[start].findSections(make_filter<Section>(p), maxd);
+        std::vector<Section> got = unlimited ? ents[start].findSections(flt) : ents[start].findSections(flt, maxd);
         same_list(got, want, nodes, "Section::findSections = breadth-first brute-force traversal within the depth limit, each section once");
     }
     // search from the file: every root (depth 1) followed by its subtree
     {
         std::vector<int> want;
         if (maxd > 0) for (int r = 0; r < (int)nodes.size(); r++) if (nodes[r].parent == -1) for (int i : bfs(nodes, r, maxd - 1, true)) if (accepts(p, nodes[i])) want.push_back(i);
-        std::vector<Section> got = unlimited ? f.findSections(make_filter<Section>(p)) : f.findSections(make_filter<Section>(p), maxd);
+        std::vector<Section> got = unlimited ? f.findSections(flt) : f.findSections(flt, maxd);
         same_list(got, want, nodes, "File::findSections = brute-force traversal within the depth limit, each section once");
     }
     nixsym_reach("searched");
@@ -129,15 +131,16 @@ extern "C" void vh_c20_sources() {
     size_t maxd = unlimited ? 1000 : dl;
     uint32_t nstart = (uint32_t)nodes.size() < VH_STARTS ? (uint32_t)nodes.size() : VH_STARTS;
     int start = (int)nixsym_choice("start", nstart);
+    util::Filter<Source>::type flt = make_filter<Source>(p);
     {   // Source::findSources includes the start (depth 0)
         std::vector<int> want; for (int i : bfs(nodes, start, maxd, true)) if (accepts(p, nodes[i])) want.push_back(i);
-        std::vector<Source> got = unlimited ? ents[start].findSources(make_filter<Source>(p)) : ents[start].findSources(make_filter<Source>(p), maxd);
+        std::vector<Source> got = unlimited ? ents[start].findSources(flt) : ents[start].findSources(flt, maxd);
         same_list(got, want, nodes, "Source::findSources = breadth-first brute-force traversal (start included) within the depth limit");
     }
     {
         std::vector<int> want;
         for (int r = 0; r < (int)nodes.size(); r++) if (nodes[r].parent == -1) for (int i : bfs(nodes, r, maxd, true)) if (accepts(p, nodes[i])) want.push_back(i);
-        std::vector<Source> got = unlimited ? b.findSources(make_filter<Source>(p)) : b.findSources(make_filter<Source>(p), maxd);
+        std::vector<Source> got = unlimited ? b.findSources(flt) : b.findSources(flt, maxd);
         same_list(got, want, nodes, "Block::findSources = brute-force traversal of every root source's subtree");
     }
     // the parent of every source is the source whose child list contains it
